@@ -12,7 +12,8 @@ R2 cycle rejection: `_check_stacked_deployments` is called on every normal path 
    deployment otherwise.  `_get_workdir` (an unbounded `while` over `wraps`) is called only from `get_binding_config`
    with a constructed `WorkflowConfig`, and follows the chain with the same key expression as the checker.
 R3 working directory: `Target` receives the target's own `workdir` and a `DeploymentConfig` whose `workdir` is
-   `_get_workdir(<deployment of that target>)`; `Target.__init__` prefers own over deployment workdir; `_get_workdir`
+   `_get_workdir(<deployment of that target>)`; `Target.__init__` prefers own over deployment workdir (decided on the
+   value `self.workdir` finally holds, by cases: see Recognisers); `_get_workdir`
    reads the deployment's own `workdir` before following `wraps`, continues only while it is None, returns it.
 R4 binding tree construction (added): `put` stores the value at the node reached after the whole walk; the keys
    "step"/"port" are written only by `_process_binding` (through `put`) and by `set_targets`, which never overwrites an
@@ -35,6 +36,14 @@ read the same way: the `continue the walk` outcome must imply exactly `(workdir 
 form `not (.. is not None or .. is None)` and `None is ..` are one shape; `or`, a flipped polarity, a swapped order, a
 dropped or an additional conjunct are not).  The value of a `return` is followed through
 temporaries with reaching definitions (`ret = X; return ret` in several branches is one value per return).
+`Target.__init__` (R3) is evaluated symbolically (`_value_cases`): every feasible normal path of the CFG x every operand
+an `or`/`and` chain or a conditional expression can yield, locals / walruses / `self.<attr>` aliases substituted by
+their values, tests recorded as canonical truth facts, a call that resolves to one function of the program inlined
+(two levels, parameters bound to the call's arguments).  The clause holds when every case whose value is not the
+own `workdir` argument carries the fact `workdir` is falsy (or None), every case whose value is neither that nor
+`[self.]deployment.workdir` also carries the fact that the latter is falsy (or None), `self.workdir` is assigned on
+every path and both the own and the inherited case exist -- one `or` chain, if statements that re-assign the
+parameter, several assignments of the attribute and an extracted helper are one shape.
 Known limit (refused as a finding, not accepted silently): a single-exit rewrite of get_binding_config
 (`ret = <fallback>` before the test, overwritten on the bound branch, one `return ret`) is not recognised as tied to
 the `no binding` outcome -- this needs path-sensitive value tracking.
